@@ -28,20 +28,21 @@ var c06Vocabulary = []string{"table", "caption", "thead", "tbody", "tfoot", "tr"
 	"_html_template_htmlescaper", "_html_template_attrescaper", "tabular", "tabular.html", "html.table", "main", "root", "content", "T", "."}
 
 type c06Case struct {
-	Table       gen.TableSpec `json:"table"`
-	ID          gen.Q         `json:"id"`
-	Class       gen.Q         `json:"class"`
-	Caption     gen.Q         `json:"caption"`
-	Gen         bool          `json:"row_class_generator"`
-	GenBase     gen.Q         `json:"generator_output_prefix"`
-	TName       string        `json:"template_name"`
-	CtxKind     int           `json:"generator_context_kind"` // 0 pointer, 1 nil, 2 string, 3 int, 4 slice, 5 map, 6 func, 7 struct value
-	Staged      bool          `json:"staged_wrapper_reused_with_other_settings_at_first_render"`
-	StageAt     int           `json:"first_render_after_row_operations"`
-	PreGen      bool          `json:"generator_set_at_first_render"`
-	Shared      bool          `json:"rows_also_collected_into_a_second_table"`
-	CopyWrapper bool          `json:"judged_wrapper_is_a_by_value_copy_of_the_staged_wrapper"`
-	Others      int           `json:"other_html_wrappers_with_generators_of_their_own_around_the_same_table"` // rendered before the judged render; 10+n: the judged wrapper also rendered once before them
+	Table         gen.TableSpec `json:"table"`
+	ID            gen.Q         `json:"id"`
+	Class         gen.Q         `json:"class"`
+	Caption       gen.Q         `json:"caption"`
+	Gen           bool          `json:"row_class_generator"`
+	GenBase       gen.Q         `json:"generator_output_prefix"`
+	GenEmptyEvery int           `json:"generator_returns_the_empty_string_for_every_nth_call,omitempty"`
+	TName         string        `json:"template_name"`
+	CtxKind       int           `json:"generator_context_kind"` // 0 pointer, 1 nil, 2 string, 3 int, 4 slice, 5 map, 6 func, 7 struct value
+	Staged        bool          `json:"staged_wrapper_reused_with_other_settings_at_first_render"`
+	StageAt       int           `json:"first_render_after_row_operations"`
+	PreGen        bool          `json:"generator_set_at_first_render"`
+	Shared        bool          `json:"rows_also_collected_into_a_second_table"`
+	CopyWrapper   bool          `json:"judged_wrapper_is_a_by_value_copy_of_the_staged_wrapper"`
+	Others        int           `json:"other_html_wrappers_with_generators_of_their_own_around_the_same_table"` // rendered before the judged render; 10+n: the judged wrapper also rendered once before them
 }
 
 type c06Call struct {
@@ -222,6 +223,9 @@ func c06Check(c *Ctx, cs *c06Case, sample bool) {
 	if cs.Gen {
 		ht.SetRowClassGenerator(func(rowNum int, ctx interface{}) template.HTMLAttr {
 			ret := fmt.Sprintf("%s#call%d", cs.GenBase, len(calls))
+			if cs.GenEmptyEvery > 0 && len(calls)%cs.GenEmptyEvery == cs.GenEmptyEvery-1 {
+				ret = "" // a zebra generator: no class for some rows is a class too, the empty one
+			}
 			calls = append(calls, c06Call{rowNum, ret, ctx})
 			return template.HTMLAttr(ret)
 		}, ctxObj)
@@ -464,6 +468,7 @@ func c06Random(c *Ctx, i int, r *gen.R) {
 	cs.ID, cs.Class, cs.Caption = opt(), opt(), opt()
 	cs.Gen = r.Bool()
 	cs.GenBase = gen.Q(r.Str(c06Fam, 4))
+	cs.GenEmptyEvery = gen.Pick(r, []int{0, 0, 1, 2, 3})
 	if r.Chance(1, 4) {
 		cs.TName = r.Word()
 		if r.Chance(1, 3) {
